@@ -258,6 +258,8 @@ type delivery struct {
 	module.Delivery
 	// Recipient addresses this delivery object is used for, original values (not modified by RewriteRcpt).
 	recipients []string
+	// Set if Body failed in BodyNonAtomic, such delivery should not be committed.
+	bodyFailed bool
 }
 
 type msgpipelineDelivery struct {
@@ -275,6 +277,10 @@ type msgpipelineDelivery struct {
 	deliveries  map[module.DeliveryTarget]*delivery
 	msgMeta     *module.MsgMetadata
 	checkRunner *checkRunner
+
+	// Set if BodyNonAtomic failed for all recipients before the message
+	// was passed to any target.
+	bodyFailed bool
 }
 
 func (dd *msgpipelineDelivery) AddRcpt(ctx context.Context, to string, opts smtp.RcptOptions) error {
@@ -450,6 +456,7 @@ func (sc statusCollector) SetStatus(rcptTo string, err error) {
 
 func (dd *msgpipelineDelivery) BodyNonAtomic(ctx context.Context, c module.StatusCollector, header textproto.Header, body buffer.Buffer) {
 	setStatusAll := func(err error) {
+		dd.bodyFailed = true
 		for _, delivery := range dd.deliveries {
 			for _, rcpt := range delivery.recipients {
 				c.SetStatus(rcpt, err)
@@ -517,6 +524,7 @@ func (dd *msgpipelineDelivery) BodyNonAtomic(ctx context.Context, c module.Statu
 		}
 
 		if err := delivery.Body(ctx, header, body); err != nil {
+			delivery.bodyFailed = true
 			for _, rcpt := range delivery.recipients {
 				c.SetStatus(rcpt, err)
 			}
@@ -529,9 +537,11 @@ func (dd msgpipelineDelivery) Commit(ctx context.Context) error {
 
 	var commitErr error
 	for _, delivery := range dd.deliveries {
-		if commitErr != nil {
+		if commitErr != nil || dd.bodyFailed || delivery.bodyFailed {
 			// No point in Committing remaining deliveries, everything is
-			// broken already. Do not leave them open though.
+			// broken already. Do not leave them open though. Same for
+			// deliveries that failed in BodyNonAtomic: the caller commits
+			// the message regardless of per-recipient statuses.
 			if err := delivery.Abort(ctx); err != nil {
 				dd.log.Debugf("delivery.Abort failure, Delivery object = %T: %v", delivery, err)
 			}
